@@ -190,6 +190,7 @@ func (rm *room) add(actor user, prevs []string, before map[ref.Key]string, typ s
 			depth = d
 		}
 	}
+	honestAuth := authFrom == nil
 	if authFrom == nil {
 		authFrom = before
 	}
@@ -220,9 +221,17 @@ func (rm *room) add(actor user, prevs []string, before map[ref.Key]string, typ s
 	ownProv, _ := gmsl.NewAuthEvents(own)
 	errOwn := rm.allowed(ev, ownProv, own)
 	var errState error
-	if errOwn == nil && typ != spec.MRoomCreate {
+	if typ != spec.MRoomCreate && (errOwn == nil || honestAuth) {
 		bl := rm.pdus(before)
 		errState = rm.allowed(ev, rm.provider(before), bl)
+		// The auth events AddAuthEvents selected from the sender's state are
+		// all another server gets: it must reach the sender's verdict.
+		if honestAuth && (errOwn == nil) != (errState == nil) {
+			rm.r.Violate("C09", "sufficiency", "auth_events_vs_full_state", "the sender (full state before the event) says allowed=%v but a server holding only the auth events AddAuthEvents selected says allowed=%v: %v / %v for %s", errState == nil, errOwn == nil, errState, errOwn, rm.describeCheck(ev, own))
+		}
+		if errOwn != nil {
+			errState = nil
+		}
 	}
 	n.rejected = errOwn != nil || errState != nil
 	n.after = before
